@@ -78,6 +78,7 @@ structure FunCall where
   result : FT
   args : List String
   unitArgOnly : Bool := false         -- the single given argument is `()`
+  inert : List Bool := []             -- per given argument: isInertArg (a missing entry counts as inert)
 
 /-- the callee as emitted, in BOTH call forms (direct call and closure body) -/
 def FunCall.callee (fc : FunCall) : String := varRefToGo fc.name fc.targs
@@ -85,7 +86,18 @@ def FunCall.callee (fc : FunCall) : String := varRefToGo fc.name fc.targs
 inductive GoExpr where
   | call (callee : String) (args : List String)
   | closure (params : List (String × String)) (result : String) (hasReturn : Bool) (callee : String) (args : List String)
+  /-- `(func () <closure type> { name := expr; …; return <closure> })()`: given arguments of a partial
+  application that are not inert are evaluated first, once (fix of D9) -/
+  | bound (binds : List (String × String)) (clo : GoExpr)
 deriving Repr, DecidableEq
+
+/-- partialArgGo over the given arguments from position `i`: what the closure mentions for each, and
+the bindings evaluated beforehand -/
+def paArgs : Nat → List String → List Bool → List String × List (String × String)
+  | _, [], _ => ([], [])
+  | i, a :: as, inert =>
+    let r := paArgs (i + 1) as inert.tail
+    if inert.headD true then (a :: r.1, r.2) else (("_p" ++ toString i) :: r.1, ("_p" ++ toString i, a) :: r.2)
 
 def restNames (n : Nat) : List String := (List.range n).map (fun i => "_r" ++ toString i)
 
@@ -98,7 +110,9 @@ def fcToGo (fc : FunCall) : Option GoExpr :=
   else if al < tal then
     let rest := fc.paramTypes.drop al
     let names := restNames rest.length
-    some (.closure (names.zip (rest.map toGo)) (toGo fc.result) (!isUnit fc.result) fc.callee (fc.args ++ names))
+    let pa := paArgs 0 fc.args fc.inert
+    let clo := GoExpr.closure (names.zip (rest.map toGo)) (toGo fc.result) (!isUnit fc.result) fc.callee (pa.1 ++ names)
+    some (if pa.2.isEmpty then clo else .bound pa.2 clo)
   else
     some (.call fc.callee (if fc.unitArgOnly then [] else fc.args))
 
